@@ -5,6 +5,7 @@ import (
 	"errors"
 	"fmt"
 	"reflect"
+	"regexp"
 	"strings"
 	"sync"
 
@@ -54,6 +55,17 @@ func init() {
 		redact.RegisterRedactErrorFn(c17Hook)
 		defer redact.RegisterRedactErrorFn(nil)
 		return c17EvalMulti(cs.Pre, cs.E, cs.Pos, rune(cs.Verb[0]), nil)
+	}
+	replayers["C17/surplus-operands"] = func(c *Ctx, raw json.RawMessage) string {
+		var cs struct {
+			F, E, Pos int
+			Trailing  bool
+		}
+		json.Unmarshal(raw, &cs)
+		c17Build()
+		redact.RegisterRedactErrorFn(c17Hook)
+		defer redact.RegisterRedactErrorFn(nil)
+		return c17EvalSurplus(cs.F, cs.E, cs.Pos, cs.Trailing, nil)
 	}
 	replayers["C17/panicking-hook"] = func(c *Ctx, raw json.RawMessage) string {
 		var cs c17Case
@@ -591,6 +603,50 @@ func c17EvalMulti(pi, e, pos int, verb rune, seen func(string)) string {
 	return ""
 }
 
+// --- surplus operands: an error the format does not consume is reported as %!(EXTRA type=value); the value is
+// printed by the same printer, so an error there - or reachable from there - is rendered by the hook like anywhere else.
+
+var c17SurplusFormats = []struct {
+	F    string
+	Args []interface{}
+}{
+	{"request failed", nil},
+	{"%d: done", []interface{}{1}},
+	{"%s %s.", []interface{}{"a", redact.Safe("b")}},
+	{"", nil},
+	{"%v|%[1]v", []interface{}{2}},
+}
+
+var c17ExtraTypeRe = regexp.MustCompile(`(EXTRA |, )[^=(), ]+=`)
+
+func c17EvalSurplus(fi, e, pos int, trailing bool, seen func(string)) string {
+	sf := c17SurplusFormats[fi]
+	cs := c17Case{D: Directive{Verb: 'v'}, E: e, Pos: pos}
+	if !c17Dispatches(cs) {
+		return ""
+	}
+	run := func(op interface{}) string {
+		args := append(append([]interface{}{}, sf.Args...), op)
+		if trailing {
+			args = append(args, 7)
+		}
+		var out string
+		if pv, pan := recoverTo(func() { out = string(redact.Sprintf(sf.F, args...)) }); pan {
+			return fmt.Sprintf("PANIC ESCAPED: %v", pv)
+		}
+		// the report names the operand's type: the stand-in has another one
+		return c17ExtraTypeRe.ReplaceAllString(out, "${1}T=")
+	}
+	got, want := run(c17Real[e][pos]), run(c17Prox[e][pos])
+	if seen != nil {
+		seen(got)
+	}
+	if got != want {
+		return fmt.Sprintf("format %q with operands %s and then a SURPLUS %s error in position %q (trailing surplus int: %v): with a hook installed = %q, want %q (type names normalised; the hook's rendering, as an equivalent SafeFormatter prints there)", sf.F, descArgs(sf.Args), c17Errs[e].Name, c17Positions[pos].Name, trailing, got, want)
+	}
+	return ""
+}
+
 func checkC17(c *Ctx) {
 	c17Build()
 	sp := quickDirectives()
@@ -648,6 +704,17 @@ func checkC17(c *Ctx) {
 				w.Eval()
 				if dt := c17EvalMulti(pi, e, p, verb, w.SeenS); dt != "" {
 					w.Fail("hook-multi", map[string]interface{}{"Pre": pi, "E": e, "Pos": p, "Verb": string(verb)}, dt)
+				}
+			}
+		}
+	})
+	c.Section("C17/surplus-operands", map[string]interface{}{"formats": len(c17SurplusFormats), "errors": nE, "positions": nP, "shapes": "error last; error followed by another surplus operand"}, len(c17SurplusFormats)*nE, func(i int, w *Worker) {
+		fi, e := i/nE, i%nE
+		for p := 0; p < nP; p++ {
+			for _, tr := range []bool{false, true} {
+				w.Eval()
+				if dt := c17EvalSurplus(fi, e, p, tr, w.SeenS); dt != "" {
+					w.Fail("surplus-operand", map[string]interface{}{"F": fi, "E": e, "Pos": p, "Trailing": tr}, dt)
 				}
 			}
 		}
